@@ -42,6 +42,7 @@ class Engine:
         self.max_paths = max_paths
         self.n_decisions = 0
         self.fresh_ctr = 0
+        self._scopes0 = 0
 
     # -- solver
     def check(self, *extra) -> str:
@@ -174,6 +175,33 @@ class Engine:
             return Obligation(r, model)
         finally:
             s.pop()
+
+    def witness_preferring(self, path: "Path", decls, value: bool):
+        """a model of the path in which as many Boolean variables as possible (greedily, in declaration order) take `value` —
+        used to look at the concrete-only assertions away from the constructor defaults"""
+        s = self.solver
+        s.push()
+        try:
+            for a in self.assumptions:
+                s.add(a)
+            s.add(*path.pc)
+            if self.check() != "sat":
+                return None
+            for d in decls:
+                if not z3.is_bool(d):
+                    continue
+                s.push()
+                s.add(d if value else z3.Not(d))
+                if self.check() == "sat":
+                    continue  # keep the constraint (the frame stays pushed; everything is popped at the end)
+                s.pop()
+            return s.model() if self.check() == "sat" else None
+        finally:
+            while s.num_scopes() > self._base_scopes(path):
+                s.pop()
+
+    def _base_scopes(self, path):
+        return self._scopes0
 
     def witness(self, path: "Path"):
         s = self.solver
